@@ -260,6 +260,9 @@ def verify_relational(prog, reg, rs: RelSpec, timeout_ms=20000):
         fn, mod = prog.func(rs.qual)
     except KeyError as e:
         rep.error = f'contract no longer attaches: {e}'; return rep
+    wr = prog.wrapped_by(rs.qual)
+    if wr:
+        rep.error = f'function is wrapped by decorator(s) {wr}: a relational contract proved on the body does not transfer to the name'; return rep
     d = _Driver(prog, reg, rs)
     S, ex = d.S, d.ex
     unary = reg.get(rs.qual)
